@@ -28,7 +28,8 @@ def pysrc_str(x):
 
 
 LEAN_TYPE.update({"Y": "Load.Y", "YList": "List Load.Y", "Loader": "Unit", "NatList": "List Nat", "YMap": "List (Load.Y × Load.Y)",
-                  "TopoL": "List (List Int)", "IntList": "List Int", "PyInt": "Int", "IntPair": "Int × Int", "TyName": "String"})
+                  "TopoL": "List (List Int)", "IntList": "List Int", "PyInt": "Int", "IntPair": "Int × Int", "TyName": "String",
+                  "SensMap": "List ((Nat × Nat) × Rat)", "Rat": "Rat"})
 
 
 class TrLoad(TrAct):
@@ -61,7 +62,8 @@ class TrLoad(TrAct):
             if t == "IntPair":
                 return f"{o}.{e.slice.value + 1}", "PyInt"
         if isinstance(e, ast.Subscript) and not (isinstance(e.value, ast.Name) and e.value.id in (
-                "ACCESS_LEVEL_MAP", "VALID_CONFIG_KEYS", "OPTIONAL_CONFIG_KEYS")):
+                "ACCESS_LEVEL_MAP", "VALID_CONFIG_KEYS", "OPTIONAL_CONFIG_KEYS")) \
+                and not (isinstance(e.value, ast.Name) and e.value.id in getattr(self, "known_maps", set())):
             o, t = self.expr(e.value, env)
             if t == "NatList":
                 i, it = self.expr(e.slice, env)
@@ -72,6 +74,8 @@ class TrLoad(TrAct):
             if kt != "Y":
                 self.err(e, f"table key of type {kt}")
             return f"(PyRt.tableGet {e.value.id} {k})", "TyName"
+        if isinstance(e, ast.Call) and ast.unparse(e) == "dict()":
+            return "(Load.Y.map [])", "Y"
         if isinstance(e, ast.Name) and e.id == "VALID_ACCESS_VALUES" and e.id not in env:
             return "VALID_ACCESS_VALUES", "YList"
         if isinstance(e, ast.Subscript) and isinstance(e.value, ast.Name) and e.value.id == "ACCESS_LEVEL_MAP":
@@ -97,8 +101,15 @@ class TrLoad(TrAct):
                 return "num_hosts", "Nat"
             if e.attr == "yaml_dict":
                 return "yaml_dict", "YMap"
+            if e.attr == "sensitive_hosts":
+                return "sensitive_hosts", "SensMap"
         if isinstance(e, ast.Subscript):
             o, t = self.expr(e.value, env)
+            if t == "SensMap":
+                i, it = self.expr(e.slice, env)
+                if it != "IntPair":
+                    self.err(e, f"sensitive-host key of type {it}")
+                return f"(PyRt.sensGet {o} {i})", "Rat"
             if t == "NatList":
                 i, it = self.expr(e.slice, env)
                 if it != "Y":
@@ -162,6 +173,11 @@ class TrLoad(TrAct):
                 return f"({a} == {b})", "Bool"
             if isinstance(op, ast.NotEq):
                 return f"({a} != {b})", "Bool"
+        if ta == "OptNat" and tb == "OptNat" and isinstance(op, ast.Eq):
+            return f"(PyRt.optEq {a} {b})", "Bool"
+        if ta == "IntPair" and tb == "SensMap" and isinstance(op, (ast.In, ast.NotIn)):
+            s_ = f"(PyRt.sensHas {b} {a})"
+            return (s_ if isinstance(op, ast.In) else f"(!{s_})"), "Bool"
         if ta == "Nat" and tb == "OptNat" and isinstance(op, ast.Eq):
             return f"(some {a} == {b})", "Bool"
         if ta == "Y" and tb in ("Num", "Nat"):
@@ -205,10 +221,12 @@ class TrLoad(TrAct):
         text = ast.unparse(f)
         if text == "len" and len(e.args) == 1:
             a = e.args[0]
-            if isinstance(a, ast.Name) and a.id in ("VALID_CONFIG_KEYS", "OPTIONAL_CONFIG_KEYS"):
+            if isinstance(a, ast.Name) and a.id in ("VALID_CONFIG_KEYS", "OPTIONAL_CONFIG_KEYS", "HOST_CONFIG_KEYS"):
                 return f"{a.id}.length", "Nat"
             if isinstance(a, ast.Call) and ast.unparse(a.func) == "set" and len(a.args) == 1:
                 o, t = self.expr(a.args[0], env)
+                if t == "Y" and self.in_assert:
+                    return f"(PyRt.ysetLen {o})", "OptNat"    # any iterable; refused for the rest
                 if t != "YList":
                     self.err(e, f"set of {t}")
                 return f"(PyRt.setLen {o})", "OptNat"
@@ -218,6 +236,10 @@ class TrLoad(TrAct):
             if t == "Y":
                 if ast.unparse(a) in getattr(self, "known_lists", set()):
                     return f"(listOf {o}).length", "Nat"
+                if ast.unparse(a) in getattr(self, "known_maps", set()):
+                    return f"(mapOf {o}).length", "Nat"
+                if self.in_assert:
+                    return f"(PyRt.ylen {o})", "OptNat"       # any sized value; refused for the rest
                 self.err(e, "len of a YAML value of unknown type")
         if text == "str" and len(e.args) == 1 and isinstance(e.args[0], ast.Tuple) and len(e.args[0].elts) == 2:
             a, ta = self.expr(e.args[0].elts[0], env)
@@ -240,6 +262,13 @@ class TrLoad(TrAct):
             o, t = self.expr(f.value, env)
             if t == "YMap":
                 return o, "List:Y*Y"
+            if t == "Y" and ast.unparse(f.value) in getattr(self, "known_maps", set()):
+                return f"(mapOf {o})", "List:Y*Y"
+        if text == "math.isclose" and len(e.args) == 2 and not e.keywords:
+            a, ta = self.expr(e.args[0], env)
+            b, tb = self.expr(e.args[1], env)
+            if ta == "Y" and tb == "Rat" and self.guarded(e.args[0]):
+                return f"(PyRt.iscloseY {a} {b})", "Bool"
         if text == "isinstance" and len(e.args) == 2 and isinstance(e.args[1], ast.Tuple) \
                 and sorted(ast.unparse(x) for x in e.args[1].elts) == ["float", "int"]:
             o, t = self.expr(e.args[0], env)
@@ -339,7 +368,8 @@ class TrLoad(TrAct):
                     self.err(tgt, f"store of {vt} into a YAML dictionary")
             d = tgt.value.id
             return f"{pad}let {d} := PyRt.ymapSet {d} {pysrc_str(key)} {v}\n" + nxt(env)
-        if isinstance(tgt, ast.Name) and isinstance(value, ast.Constant) and isinstance(value.value, str):
+        if isinstance(tgt, ast.Name) and (isinstance(value, ast.JoinedStr)
+                                          or isinstance(value, ast.Constant) and isinstance(value.value, str)):
             return nxt(env)                                   # a label used in messages only
         if isinstance(value, ast.Call) and ast.unparse(value.func) == "eval" and len(value.args) == 1:
             # eval of an address key: the documented `(int, int)` spelling parses, anything else raises (rejection)
@@ -440,12 +470,39 @@ class TrLoad(TrAct):
                 env_i[tn] = ("pytype", table[i][1])
                 return self.block(st.body, env_i, lambda e2, i2: unroll(i + 1, e2, i2), ind_)
             return unroll(0, env, ind)
+        if isinstance(st.iter, ast.Name) and st.iter.id in getattr(self.w, "key_lists", {}) and isinstance(st.target, ast.Name):
+            keys = self.w.key_lists[st.iter.id]
+
+            def unroll_k(i, env_, ind_):
+                if i == len(keys):
+                    return self.block(rest, env_, k, ind_)
+                env_i = dict(env_)
+                env_i[st.target.id] = ("strconst", keys[i])
+                return self.block(st.body, env_i, lambda e2, i2: unroll_k(i + 1, e2, i2), ind_)
+            return unroll_k(0, env, ind)
         it, ity = self.expr(st.iter, env)
+        if ity == "Y" and ast.unparse(st.iter) not in getattr(self, "known_lists", set()):
+            # iteration over a YAML value of unknown type: lists, strings (their characters) and dictionaries (their
+            # keys) are iterable, anything else is a TypeError — a rejection in a validator
+            pad = "  " * ind
+            self.it_n = getattr(self, "it_n", 0) + 1
+            nm = f"it_{self.it_n}"
+            fail = ".ret false" if getattr(self, "loop", None) is not None else "false"
+            saved = self.expr
+            node = st.iter
+
+            def ex(e, env_):
+                if e is node:
+                    return nm, "List:Y"
+                return saved(e, env_)
+            self.expr = ex
+            try:
+                inner = super().for_stmt(st, rest, env, k, ind + 1)
+            finally:
+                self.expr = saved
+            return f"{pad}match PyRt.iterY {it} with\n{pad}| none => {fail}\n{pad}| some {nm} =>\n" + inner
         if ity in ("YList", "Y"):
             if ity == "Y":
-                # a value known to be a list at this point (after `isinstance(row, list)`)
-                if ast.unparse(st.iter) not in getattr(self, "known_lists", set()):
-                    self.err(st, "iteration over a YAML value of unknown type")
                 it = f"(listOf {it})"
             saved = self.expr
             node = st.iter
@@ -482,6 +539,10 @@ class TrLoad(TrAct):
             if isinstance(x, ast.Assert) and isinstance(x.test, ast.Call) and ast.unparse(x.test.func) == "isinstance" \
                     and ast.unparse(x.test.args[1]) == "dict":
                 self.known_maps.add(ast.unparse(x.test.args[0]))
+            if isinstance(x, ast.Assert) and isinstance(x.test, ast.BoolOp) and isinstance(x.test.op, ast.And) \
+                    and isinstance(x.test.values[0], ast.Call) and ast.unparse(x.test.values[0].func) == "isinstance" \
+                    and ast.unparse(x.test.values[0].args[1]) == "dict":
+                self.known_maps.add(ast.unparse(x.test.values[0].args[0]))
         # `if type(f) != list: return False` / `assert isinstance(row, list)` make the value a known list for what follows
         for x in ast.walk(self.node):
             if isinstance(x, ast.If) and isinstance(x.test, ast.Compare) and isinstance(x.test.ops[0], ast.NotEq) \
@@ -576,9 +637,16 @@ def translate_loader():
     emit(mk("_validate_privescs", ["processes", "os"], ["YList", "YList"], [("privescs", "YMap")]))
     emit(mk("_has_all_host_addresses", ["subnets"], ["NatList"], [("addresses", "YList")]))
     emit(mk("_validate_host_address", ["subnets"], ["NatList"], [("addr", "Y")]))
+    w.key_lists = {"HOST_CONFIG_KEYS": list(loader_mod.HOST_CONFIG_KEYS)}
+    out.append("/-- `nasim/scenarios/loader.py`: the keys of `HOST_CONFIG_KEYS` -/\ndef HOST_CONFIG_KEYS : List String := ["
+               + ", ".join(f'"{k}"' for k in loader_mod.HOST_CONFIG_KEYS) + "]\n")
     emit(mk("_validate_sensitive_hosts", ["subnets", "num_hosts"], ["NatList", "Nat"], [("sensitive_hosts", "YMap")]))
     emit(mk("_contains_all_required_firewalls", ["topology"], ["TopoL"], [("firewall", "YMap")]))
     emit(mk("_validate_firewall", ["topology", "services"], ["TopoL", "YList"], [("firewall", "YMap")]))
+    emit(mk("_validate_host_config", ["subnets", "os", "services", "processes", "sensitive_hosts"],
+            ["NatList", "YList", "YList", "YList", "SensMap"], [("addr", "Y"), ("cfg", "Y")]))
+    emit(mk("_validate_host_configs", ["subnets", "os", "services", "processes", "sensitive_hosts", "num_hosts"],
+            ["NatList", "YList", "YList", "YList", "SensMap", "Nat"], [("host_configs", "YMap")]))
     fn = mk("step_limit_ok", [], [], [("step_limit", "Y")])
     # the test sits inside _parse_step_limit; its only variable is the value read from the file
     node = meth.get("_parse_step_limit")
